@@ -551,7 +551,11 @@ Definition step (s : state) (e : event) : state * list finding :=
     end
   | EvSame a b =>
     match get_r s a, get_r s b with
-    | Some x, Some y => (s, fl (node_eqb (rs_dump x) (rs_dump y) && beqb (rs_disp x) (rs_disp y)) FSame [rs_disp x; rs_disp y])
+    | Some x, Some y =>
+      let sub (a b : live) := forallb (fun td : bytes * N => existsb (fun td' : bytes * N => beqb (fst td) (fst td') && N.eqb (snd td) (snd td')) b) a in
+      if sub (rs_live x) (rs_live y) && sub (rs_live y) (rs_live x)
+      then (s, fl (node_eqb (rs_dump x) (rs_dump y) && beqb (rs_disp x) (rs_disp y)) FSame [rs_disp x; rs_disp y])
+      else (s, [])
     | _, _ => (s, [(FUnknownRouter, [])])
     end
   | EvParse t r rd => (s, check_parse t r rd)
@@ -564,4 +568,19 @@ Definition step_line (s : state) (line : bytes) : state * list finding :=
   match parse_line line with
   | Some e => step s e
   | None => (s, [(FBadLine, [line])])
+  end.
+
+(* statistics for the evidence: for a search line (number of live routes that fit, number of
+   returned parameters, number of live templates) *)
+Definition line_stats (s : state) (line : bytes) : option (N * N * N) :=
+  match parse_line line with
+  | Some (EvSearch rid p (SRes r)) =>
+    match get_r s rid with
+    | Some x =>
+      Some (N.of_nat (length (filter (fun ri : route * info => fits_b cfun (fst ri) p) (live_routes (rs_live x)))),
+            match r with Some (_, _, _, ps) => N.of_nat (length ps) | None => 0%N end,
+            N.of_nat (length (rs_live x)))
+    | None => None
+    end
+  | _ => None
   end.
